@@ -54,6 +54,8 @@ KNOWN_KEYS = {
     "rangedr": "range-endpoint-discreterange-repr",
     "hypot": "support-hypot-nonmonotonic",
     "starrecv": "star-call-random-receiver",
+    "dislazy": "discrete-lazy-literal-option",
+    "veclazy": "vector-operator-lazy-self",
 }
 
 
@@ -168,11 +170,11 @@ def build_cases(tier):
     s = seed()
     core = G.core_cases()
     if tier == "quick":
-        nrand, nobj = 400, 110
+        nrand, nobj = 320, 50
     else:
         nrand, nobj = 5000, 1000
     rand = G.random_cases(s * 7919 + 5, nrand, depths=(2, 3, 3, 4) if tier == "quick" else (2, 3, 3, 4, 4, 5))
-    objs = G.object_cases(s * 104729 + 11, nobj)
+    objs = G.object_core() + G.object_cases(s * 104729 + 11, nobj)
     if tier == "quick":
         # group A (operator x constant x side x leaf): every case with the constants 0 and 1 (the
         # rewrite forms and their look-alikes), every second one (rotating with the seed) for 2, -1, 1/2
@@ -364,6 +366,10 @@ def main(tier):
                 key = KNOWN_KEYS["rangedr"]
             elif et == "RandomControlFlowError" and sc["starrecv"]:
                 key = KNOWN_KEYS["starrecv"]
+            elif et == "AssertionError" and sc["dislazy"]:
+                key = KNOWN_KEYS["dislazy"]
+            elif et == "TypeError" and "missing 1 required positional argument" in msg and sc["veclazy"]:
+                key = KNOWN_KEYS["veclazy"]
             ck.violation(
                 f"building a well-formed expression failed: {et}: {msg}",
                 dict(base, error=rr["compile_error"], expected_first=fmt(sorted(exp, key=repr)[0])),
